@@ -4,6 +4,7 @@ import (
 	"fmt"
 	"go/token"
 	"go/types"
+	"sort"
 	"strings"
 
 	"golang.org/x/tools/go/ssa"
@@ -15,12 +16,14 @@ func init() {
 	register(&Property{
 		ID:        "C17",
 		Title:     "Route sync converges for Felix's routes and leaves other routes alone",
-		Technique: "static analysis: cut-set guard analysis (ownership filters), nil-error-edge analysis of deltatracker Iter closures, failure-path analysis up to the returned error (go/ssa over felix/routetable)",
+		Technique: "static analysis: cut-set guard analysis (ownership filters), nil-error-edge analysis of deltatracker Iter closures, failure-path analysis up to the returned error, value provenance of map-delete keys (mirror maps), reset-on-every-cycle analysis of retried dumps (go/ssa over felix/routetable)",
 		DesignRef: "DESIGN.md §3 C17",
 		Explanation: "Decides structural clauses of the property on RouteTable: (own) a route read from the kernel is recorded in the tracker's dataplane view (and hence becomes deletable) only under routeIsOurs on that same route, routeIsOurs returns true only under OwnershipPolicy.RouteIsOurs, and the exported mutators change desired routes only under OwnershipPolicy.IfaceIsOurs(ifaceName); " +
 			"(iteraction) every closure handed to kernelRoutes.PendingUpdates()/PendingDeletions().Iter returns IterActionUpdateDataplane only on the nil-error edge of its netlink call; " +
-			"(errreport) on the error edge the failure is recorded (error map or interface rescan) on every path, and every error map makes applyUpdates return a non-nil error, so Apply never reports success while a route write failed.",
-		NotDecided: "Conflict resolution by route class (the arg-min over map iteration in recalculateDesiredKernelRoute) and the convergence arithmetic of the delta tracker; the heuristics inside MainTableOwnershipPolicy.RouteIsOurs; interface-state bookkeeping.",
+			"(errreport) on the error edge the failure is recorded (error map or interface rescan) on every path, and every error map makes applyUpdates return a non-nil error, so Apply never reports success while a route write failed; " +
+			"(ifmirror) the interface caches ifaceNameToIndex and the index-keyed maps updated together with it are kept as mirrors: entries of an index-keyed map are removed only under the index cached under the interface's name (never under a caller-supplied index), and removing a name removes its cached index from every index-keyed map, the index being read before the name is dropped; " +
+			"(dumpretry) every collection the callback of a retried kernel route dump fills (seen-route sets) is reset on every CFG cycle that re-issues the dump, in the full and in the per-interface resync.",
+		NotDecided: "Conflict resolution by route class (the arg-min over map iteration in recalculateDesiredKernelRoute) and the convergence arithmetic of the delta tracker; the heuristics inside MainTableOwnershipPolicy.RouteIsOurs; interface-state bookkeeping beyond the mirror-map removal discipline (e.g. that the renumbering branch of OnIfaceStateChanged leaves ifaceIndexToState[old index] behind; which state transitions trigger a rescan).",
 		Assumptions: []string{
 			"go/types + go/ssa (x/tools v0.50.0) model of the current source, CGO_ENABLED=0 build",
 			"deltatracker.Pending*View.Iter applies IterActionUpdateDataplane as documented; package-level Err* variables are non-nil",
@@ -39,6 +42,15 @@ func init() {
 				Old: "\t\t\t\"Cannot set route for interface not managed by this routetable.\")\n\t\treturn\n\t}\n\tr.checkTargets(ifaceName, target)\n", New: "\t\t\t\"Cannot set route for interface not managed by this routetable.\")\n\t}\n\tr.checkTargets(ifaceName, target)\n", Expect: "C17.own/iface-guard/RouteTable.RouteUpdate"},
 			{Name: "route delete error swallowed", File: "felix/routetable/route_table.go",
 				Old: "\t\terr := r.deleteRoute(nl, routeKey)\n\t\tif err != nil {\n\t\t\tdeletionErrs[routeKey] = err\n\t\t\treturn deltatracker.IterActionNoOp\n\t\t}\n\t\tr.conntrackTracker.OnDataplaneRouteDeleted(routeKey.CIDR, kernRoute.Ifindex)\n\n", New: "\t\terr := r.deleteRoute(nl, routeKey)\n\t\tif err != nil {\n\t\t\treturn deltatracker.IterActionNoOp\n\t\t}\n\t\tr.conntrackTracker.OnDataplaneRouteDeleted(routeKey.CIDR, kernRoute.Ifindex)\n\n", Expect: "C17.errreport/RouteTable.applyUpdates/PendingDeletions/deleteRoute"},
+			{Name: "link state dropped under the event's ifindex instead of the cached one", File: "felix/routetable/route_table.go",
+				Old: "\t\tdelete(r.ifaceIndexToState, oldIndex)\n", New: "\t\tdelete(r.ifaceIndexToState, ifIndex)\n", Expect: "C17.ifmirror/key/RouteTable.OnIfaceStateChanged/ifaceIndexToState"},
+			{Name: "interface name forgotten before its cached index is read", File: "felix/routetable/route_table.go",
+				Old: "\t\toldIndex := r.ifaceNameToIndex[ifaceName]\n\t\tdelete(r.ifaceIndexToName, oldIndex)\n\t\tdelete(r.ifaceIndexToState, oldIndex)\n\t\tdelete(r.ifaceNameToIndex, ifaceName)\n",
+				New: "\t\tdelete(r.ifaceNameToIndex, ifaceName)\n\t\toldIndex := r.ifaceNameToIndex[ifaceName]\n\t\tdelete(r.ifaceIndexToName, oldIndex)\n\t\tdelete(r.ifaceIndexToState, oldIndex)\n", Expect: "C17.ifmirror/removal/RouteTable.OnIfaceStateChanged/ifaceIndexToName"},
+			{Name: "per-interface dump retried without forgetting the interrupted attempt", File: "felix/routetable/route_table.go",
+				Old: "\t\t\tseenRoutes.Clear()\n", New: "", Expect: "C17.dumpretry/RouteTable.resyncIface/RouteListFilteredIter"},
+			{Name: "full dump retried without forgetting the interrupted attempt", File: "felix/routetable/route_table.go",
+				Old: "\t\t\tseenKeys.Clear()\n", New: "", Expect: "C17.dumpretry/RouteTable.doFullResync/RouteListFilteredIter"},
 			{Name: "update errors logged but not returned", File: "felix/routetable/route_table.go",
 				Old: "\t\t\t\"Encountered some errors when trying to update routes.  Will retry.\")\n\t\terr = ErrUpdateFailed\n", New: "\t\t\t\"Encountered some errors when trying to update routes.  Will retry.\")\n", Expect: "C17.errreport/RouteTable.applyUpdates/returned"},
 		},
@@ -48,12 +60,16 @@ func init() {
 func runC17(c *Ctx) {
 	c.Rule("C17.iteraction", "E-ERR", "closures handed to kernelRoutes Pending*().Iter return IterActionUpdateDataplane only behind the nil-error edge of their netlink call", 3)
 	c.Rule("C17.own", "E-GUARD", "kernel routes enter the tracker only under routeIsOurs(route); routeIsOurs returns true only under OwnershipPolicy.RouteIsOurs; exported mutators change desired routes only under IfaceIsOurs(ifaceName)", 6)
+	c.Rule("C17.ifmirror", "E-PAIR", "the interface caches name->index and index->{name,state} are mirror maps: an entry is removed from an index-keyed map only under the index cached under the interface's name (never the event's argument), and removing a name removes its entry from every index-keyed map", 4)
+	c.Rule("C17.dumpretry", "E-ORDER", "every collection filled by the callback of a retried kernel route dump is reset on every retry edge (each CFG cycle through the dump call passes a reset)", 2)
 	c.Rule("C17.errreport", "E-ERR", "on the error edge of a route write the failure is recorded on every path, and every record makes applyUpdates return non-nil", 5)
 
 	p := c.Load(c17RTPkg)
 	sites, _ := c17CheckIterAction(c, p, "C17.iteraction", c17RTPkg)
 	c17Own(c, p)
 	c17ErrReport(c, p, sites)
+	c17IfMirror(c, p)
+	c17DumpRetry(c, p)
 }
 
 func c17Own(c *Ctx, p *Prog) {
@@ -335,3 +351,393 @@ func c17ErrReport(c *Ctx, p *Prog, sites []c17IterSite) {
 }
 
 var _ = strings.Contains
+
+// ----------------------------------------------------------------- ifmirror --
+//
+// RouteTable caches the kernel's interfaces in mirror maps: name->index and a
+// family of index-keyed maps (index->name, index->state).  The index-keyed maps
+// are derived structurally: every field that, in a function storing
+// nameToIndex[name] = idx, is also updated under that same idx.
+//
+//   key:     an entry is removed from an index-keyed map only under the index
+//            read from nameToIndex (the cached index of the interface being
+//            handled), never under a value handed in by the caller: callers that
+//            spot a vanished interface themselves have no index to hand in.
+//   removal: where a name is removed from nameToIndex, every index-keyed map
+//            loses the entry of the index cached under that very name, read
+//            before the name is removed, on every path.
+
+// c17MirrorKey classifies the key of a delete on an index-keyed map.
+// Returns "" if it is the cached index (and the Lookups it was read by),
+// otherwise why not; und is set when the provenance cannot be followed.
+func c17MirrorKey(funcs []*ssa.Function, nameIdx, self *types.Var, key ssa.Value, depth int) (lookups []*ssa.Lookup, bad string, und bool) {
+	for _, o := range origins(key, nil) {
+		switch x := o.V.(type) {
+		case *ssa.Lookup:
+			if fieldVar(x.X) == nameIdx {
+				lookups = append(lookups, x)
+				continue
+			}
+			return nil, "it is read from " + path(x.X) + ", not from " + nameIdx.Name(), false
+		case *ssa.Next:
+			// `for k := range m { delete(m, k) }`: clearing a map under its own keys
+			if rg, ok := x.Iter.(*ssa.Range); ok && fieldVar(rg.X) == self {
+				continue
+			}
+			return nil, "", true
+		case *ssa.Parameter:
+			fn := x.Parent()
+			obj, _ := fn.Object().(*types.Func)
+			if fn.Parent() != nil || obj == nil || obj.Exported() || depth >= 2 {
+				return nil, "it is the parameter `" + x.Name() + "` of " + fnName(fn) + " (a value chosen by the caller)", false
+			}
+			idx := c16ParamIndex(fn, x)
+			callers := c16StaticCallers(funcs, fn)
+			if idx < 0 || len(callers) == 0 {
+				return nil, "", true
+			}
+			for _, ci := range callers {
+				lk, b, u := c17MirrorKey(funcs, nameIdx, self, ci.Common().Args[idx], depth+1)
+				if b != "" || u {
+					return nil, b, u
+				}
+				lookups = append(lookups, lk...)
+			}
+		case *ssa.Const:
+			return nil, "it is the constant " + x.Name(), false
+		default:
+			return nil, "", true
+		}
+	}
+	if len(lookups) == 0 && bad == "" {
+		// only self-range keys
+		return nil, "", false
+	}
+	return lookups, "", false
+}
+
+func c17IfMirror(c *Ctx, p *Prog) {
+	nameIdx, _ := p.LookupObj(c17RTPkg, "RouteTable.ifaceNameToIndex").(*types.Var)
+	if nameIdx == nil {
+		c.Lost("RouteTable.ifaceNameToIndex")
+	}
+	funcs := c16PkgFuncs(p, c17RTPkg)
+	// derive the index-keyed mirror maps
+	mirrors := map[*types.Var]bool{}
+	var order []*types.Var
+	for _, fn := range funcs {
+		var nameUpd, other []*ssa.MapUpdate
+		allInstrs(fn, false, func(_ *ssa.Function, in ssa.Instruction) {
+			if mu, ok := in.(*ssa.MapUpdate); ok {
+				if fv := fieldVar(mu.Map); fv == nameIdx {
+					nameUpd = append(nameUpd, mu)
+				} else if fv != nil {
+					other = append(other, mu)
+				}
+			}
+		})
+		for _, nu := range nameUpd {
+			for _, mu := range other {
+				if fv := fieldVar(mu.Map); c16SameVal(mu.Key, nu.Value) && !mirrors[fv] {
+					mirrors[fv] = true
+					order = append(order, fv)
+				}
+			}
+		}
+	}
+	if len(order) < 2 {
+		c.Lost("RouteTable: fewer than two index-keyed maps are updated together with ifaceNameToIndex (%d found)", len(order))
+	}
+	isDelete := func(in ssa.Instruction, fv *types.Var) (ssa.Value, bool) {
+		if cc, ok := isBuiltinCall(in, "delete"); ok && len(cc.Args) == 2 && fieldVar(cc.Args[0]) == fv {
+			return cc.Args[1], true
+		}
+		return nil, false
+	}
+
+	// (key) every removal from an index-keyed map
+	type grp struct {
+		fn  *ssa.Function
+		fv  *types.Var
+		ins []ssa.Instruction
+	}
+	var groups []*grp
+	for _, fn := range funcs {
+		for _, fv := range order {
+			g := &grp{fn: fn, fv: fv}
+			allInstrs(fn, false, func(_ *ssa.Function, in ssa.Instruction) {
+				if _, ok := isDelete(in, fv); ok {
+					g.ins = append(g.ins, in)
+				}
+			})
+			if len(g.ins) > 0 {
+				groups = append(groups, g)
+			}
+		}
+	}
+	for _, g := range groups {
+		key := "C17.ifmirror/key/" + fnName(g.fn) + "/" + g.fv.Name()
+		bad, und := "", ""
+		for _, in := range g.ins {
+			k, _ := isDelete(in, g.fv)
+			_, b, u := c17MirrorKey(funcs, nameIdx, g.fv, k, 0)
+			if b != "" {
+				bad = fmt.Sprintf("delete(%s, %s) at %s: %s", g.fv.Name(), path(k), p.Pos(in.Pos()), b)
+			} else if u {
+				und = fmt.Sprintf("delete(%s, %s) at %s", g.fv.Name(), path(k), p.Pos(in.Pos()))
+			}
+		}
+		switch {
+		case bad != "":
+			c.Violate(key, p.Pos(g.ins[0].Pos()), "%s removes an entry of the index-keyed interface cache under a key that is not the index cached in %s for the interface: %s.  When the caller has no (or a different) index the old index stays cached (e.g. as `up`) and a later interface re-using that index is never registered, so its routes are not programmed or cleaned up",
+				fnName(g.fn), nameIdx.Name(), bad)
+		case und != "":
+			c.Undecided(key, p.Pos(g.ins[0].Pos()), "cannot trace the key of %s back to a lookup in %s", und, nameIdx.Name())
+		default:
+			c.Ok(key, p.Pos(g.ins[0].Pos()), "%d removal(s) from %s, all keyed by the index read from %s", len(g.ins), g.fv.Name(), nameIdx.Name())
+		}
+	}
+
+	// (removal) removing a name removes its index from every mirror
+	nRemovals := 0
+	for _, fn := range funcs {
+		var nameDels []ssa.Instruction
+		allInstrs(fn, false, func(_ *ssa.Function, in ssa.Instruction) {
+			if _, ok := isDelete(in, nameIdx); ok {
+				nameDels = append(nameDels, in)
+			}
+		})
+		if len(nameDels) == 0 {
+			continue
+		}
+		pd := postDominators(fn)
+		for i, d := range nameDels {
+			nRemovals++
+			name, _ := isDelete(d, nameIdx)
+			for _, fv := range order {
+				key := "C17.ifmirror/removal/" + fnName(fn) + "/" + fv.Name()
+				if len(nameDels) > 1 {
+					key += fmt.Sprintf("#%d", i+1)
+				}
+				found, late := false, false
+				var cands []ssa.Instruction
+				allInstrs(fn, false, func(_ *ssa.Function, in ssa.Instruction) {
+					k, ok := isDelete(in, fv)
+					if !ok {
+						return
+					}
+					lks, b, u := c17MirrorKey(funcs, nameIdx, fv, k, 0)
+					if b != "" || u || len(lks) == 0 {
+						return
+					}
+					for _, lk := range lks {
+						if lk.Parent() != fn || !c16SameVal(lk.Index, name) {
+							return
+						}
+						if !instrDominates(lk, d) {
+							late = true
+							return
+						}
+					}
+					cands = append(cands, in)
+					if instrDominates(d, in) && instrPostDominates(pd, in, d) {
+						found = true
+					}
+				})
+				// before the name is dropped, on every path on which the name was cached at all
+				if first := c16FirstInstr(fn); !found && first != nil && len(cands) > 0 {
+					notCached := lookupOkCond(false, func(mp ssa.Value) bool { return fieldVar(mp) == nameIdx })
+					found = c17PathsThrough(first, d, cands, notCached)
+				}
+				if found {
+					c.Ok(key, p.Pos(d.Pos()), "removing the name also removes %s[index cached under that name], read before the name is dropped", fv.Name())
+					continue
+				}
+				// a helper may do it
+				delegated := false
+				for _, cs := range callsIn(fn, false, func(*types.Func) bool { return true }) {
+					if g := calleeFn(cs.Common()); g != nil && g.Blocks != nil && c16InPkg(g, c17RTPkg) {
+						if _, per := c17FieldMutations(g, fv); len(per) > 0 {
+							delegated = true
+						}
+					}
+				}
+				if delegated {
+					c.Undecided(key, p.Pos(d.Pos()), "%s removes a name from %s; the matching removal from %s seems to happen in a callee, which is not modelled", fnName(fn), nameIdx.Name(), fv.Name())
+					continue
+				}
+				why := "no delete(" + fv.Name() + ", <index cached under that name>) accompanies it on every path"
+				if late {
+					why = "the index is looked up in " + nameIdx.Name() + " only after (or not on every path before) the name was removed, so it reads as 0"
+				}
+				c.Violate(key, p.Pos(d.Pos()), "%s removes an interface name from %s but %s: the entry of the vanished interface stays in %s, so a later interface re-using its index is mistaken for it (state unchanged / wrong name) and its routes are not synced",
+					fnName(fn), nameIdx.Name(), why, fv.Name())
+			}
+		}
+	}
+	if nRemovals == 0 {
+		c.Lost("no delete from RouteTable.ifaceNameToIndex: interface removal is no longer recognisable")
+	}
+}
+
+// ---------------------------------------------------------------- dumpretry --
+//
+// A kernel route dump (netlinkshim.Interface.*Iter with a callback) can be
+// interrupted (EINTR) precisely when the table changed under it, and is then
+// re-issued.  What the callback collected in the interrupted attempt describes a
+// table that no longer exists, so every collection the callback fills must be
+// emptied on every CFG cycle that leads from the dump call back to itself.
+
+const c17SetPkg = "libcalico-go/lib/set"
+
+func c17IsSetMethod(f *types.Func, names ...string) bool {
+	if f == nil || f.Pkg() == nil || f.Pkg().Path() != calicoPrefix+c17SetPkg {
+		return false
+	}
+	for _, n := range names {
+		if f.Name() == n {
+			return true
+		}
+	}
+	return false
+}
+
+// c17LoadOfCell: v is a load of a (captured) local variable; returns its cell.
+func c17LoadOfCell(v ssa.Value) *ssa.Alloc {
+	ld, ok := v.(*ssa.UnOp)
+	if !ok || ld.Op != token.MUL {
+		return nil
+	}
+	al, _ := c17Cell(ld.X).(*ssa.Alloc)
+	return al
+}
+
+// c17DependsOnCell: the value is computed from a load of cell.
+func c17DependsOnCell(v ssa.Value, cell *ssa.Alloc) bool {
+	seen := map[ssa.Value]bool{}
+	var walk func(v ssa.Value) bool
+	walk = func(v ssa.Value) bool {
+		if v == nil || seen[v] {
+			return false
+		}
+		seen[v] = true
+		if c17LoadOfCell(v) == cell {
+			return true
+		}
+		in, ok := v.(ssa.Instruction)
+		if !ok {
+			return false
+		}
+		for _, op := range in.Operands(nil) {
+			if *op != nil && walk(*op) {
+				return true
+			}
+		}
+		return false
+	}
+	return walk(v)
+}
+
+// c17FilledCells: local collections of encl that closure f (and its nested
+// closures) adds to: set Add/AddAll/AddSet, map stores, appends.
+func c17FilledCells(f, encl *ssa.Function) []*ssa.Alloc {
+	seen := map[*ssa.Alloc]bool{}
+	var out []*ssa.Alloc
+	add := func(al *ssa.Alloc) {
+		if al != nil && al.Parent() == encl && !seen[al] {
+			seen[al] = true
+			out = append(out, al)
+		}
+	}
+	allInstrs(f, true, func(_ *ssa.Function, in ssa.Instruction) {
+		switch x := in.(type) {
+		case *ssa.MapUpdate:
+			add(c17LoadOfCell(x.Map))
+		case *ssa.Store:
+			if al, ok := c17Cell(x.Addr).(*ssa.Alloc); ok {
+				if _, _, _, isApp := c21AppendCall(x.Val); isApp && c17DependsOnCell(x.Val, al) {
+					add(al)
+				}
+			}
+		case ssa.CallInstruction:
+			if cal := calleeOf(x.Common()); c17IsSetMethod(cal, "Add", "AddAll", "AddSet") {
+				args := CallSite{Instr: x, Callee: cal}.Args()
+				if len(args) > 0 {
+					add(c17LoadOfCell(args[0]))
+				}
+			}
+		}
+	})
+	sort.SliceStable(out, func(i, j int) bool { return out[i].Pos() < out[j].Pos() })
+	return out
+}
+
+// c17Resets: the instructions of fn's own body that empty / replace the collection in cell.
+func c17Resets(fn *ssa.Function, cell *ssa.Alloc) []ssa.Instruction {
+	var out []ssa.Instruction
+	allInstrs(fn, false, func(_ *ssa.Function, in ssa.Instruction) {
+		switch x := in.(type) {
+		case *ssa.Store:
+			if c17Cell(x.Addr) == ssa.Value(cell) && !c17DependsOnCell(x.Val, cell) {
+				out = append(out, in)
+			}
+		case ssa.CallInstruction:
+			if cc, ok := isBuiltinCall(in, "clear"); ok && len(cc.Args) == 1 && c17LoadOfCell(cc.Args[0]) == cell {
+				out = append(out, in)
+				return
+			}
+			if cal := calleeOf(x.Common()); c17IsSetMethod(cal, "Clear") {
+				args := CallSite{Instr: x, Callee: cal}.Args()
+				if len(args) > 0 && c17LoadOfCell(args[0]) == cell {
+					out = append(out, in)
+				}
+			}
+		}
+	})
+	return out
+}
+
+func c17DumpRetry(c *Ctx, p *Prog) {
+	nSites := 0
+	for _, fn := range c16PkgFuncs(p, c17RTPkg) {
+		for _, cs := range callsIn(fn, false, func(f *types.Func) bool {
+			if f.Pkg() == nil || f.Pkg().Path() != calicoPrefix+"felix/netlinkshim" || recvTypeName(f) != "Interface" {
+				return false
+			}
+			sig := f.Type().(*types.Signature)
+			if sig.Params().Len() == 0 {
+				return false
+			}
+			_, isFunc := sig.Params().At(sig.Params().Len() - 1).Type().Underlying().(*types.Signature)
+			return isFunc
+		}) {
+			nSites++
+			base := "C17.dumpretry/" + fnName(fn) + "/" + cs.Callee.Name()
+			site := p.Pos(cs.Instr.Pos())
+			args := cs.Args()
+			cb := c17FuncOfValue(args[len(args)-1])
+			if cb == nil || cb.Blocks == nil {
+				c.Undecided(base, site, "the callback of %s is not a function literal: cannot see which collections it fills", cs.Callee.Name())
+				continue
+			}
+			retried := instrReaches(cs.Instr, cs.Instr)
+			for i, cell := range c17FilledCells(cb, fn) {
+				key := fmt.Sprintf("%s/acc#%d", base, i+1)
+				if !retried {
+					c.Ok(key, site, "the dump filling `%s` is not re-issued in %s", cell.Comment, fnName(fn))
+					continue
+				}
+				resets := c17Resets(fn, cell)
+				if c17PathsThrough(cs.Instr, cs.Instr, resets, nil) {
+					c.Ok(key, site, "every retry edge of the dump resets `%s` (%d reset site(s))", cell.Comment, len(resets))
+				} else {
+					c.Violate(key, site, "%s re-issues %s (retry loop) on a path that does not reset `%s`, which the dump callback fills: entries collected by an interrupted dump (the table changed under it) survive into the retry, so a route that vanished in between is still counted as seen and is never re-programmed",
+						fnName(fn), cs.Callee.Name(), cell.Comment)
+				}
+			}
+		}
+	}
+	if nSites == 0 {
+		c.Lost("no netlinkshim.Interface dump-with-callback call in felix/routetable")
+	}
+}
